@@ -499,8 +499,10 @@ def replay(pid, path):
 
 
 def setup():
+    mods = [f"SltVerif.Props.{pid}" for pid in sorted(PROPS.PROPS)
+            if os.path.exists(os.path.join(LEAN, "SltVerif", "Props", f"{pid}.lean"))]
     with Lock(".lake.lock"):
-        sh(["lake", "build"], cwd=LEAN, timeout=7200)
+        sh(["lake", "build", "SltVerif", "sltmodel"] + mods, cwd=LEAN, timeout=7200)
     err = build_harness()
     if err:
         raise MachineryError(err)
